@@ -64,12 +64,17 @@ RowCode(r) ==
             \* first result of (interval, group): if the interval was already delivered, its rows are late ones
             IF ~WinSeen(r.ws) THEN ""
             ELSE IF cfg.al = 0 THEN "interval_reported_twice"
+            ELSE IF "ScopeOnTimeOnly" \in Dev THEN (IF \E id \in SeqSet(r.ids) : ~em[id].late THEN "redelivery_added_ontime_row" ELSE "")
             ELSE IF \E id \in SeqSet(r.ids) : ~em[id].late THEN "redelivery_added_ontime_row"
             ELSE IF \E id \in SeqSet(r.ids) : r.we + cfg.al <= em[id].pwmAt THEN "late_row_absorbed_after_allowance"
             ELSE ""
        ELSE IF cfg.al = 0 THEN "interval_reported_twice"
        ELSE LET last == dl[CHOOSE i \in prev : \A j \in prev : j <= i] IN
-            IF ~(SeqSet(last.ids) \subseteq SeqSet(r.ids)) THEN "redelivery_lost_rows"
+            \* scope C01 (ScopeOnTimeOnly): only the rows that were on time matter - every delivery of an interval reports the same
+            \* on-time rows; which late rows it carries and in which order updates arrive is C02's subject
+            IF "ScopeOnTimeOnly" \in Dev THEN
+                 (IF {id \in SeqSet(last.ids) : ~em[id].late} # {id \in SeqSet(r.ids) : ~em[id].late} THEN "redelivery_changed_ontime_rows" ELSE "")
+            ELSE IF ~(SeqSet(last.ids) \subseteq SeqSet(r.ids)) THEN "redelivery_lost_rows"
             ELSE IF \E id \in SeqSet(r.ids) \ SeqSet(last.ids) : ~em[id].late THEN "redelivery_added_ontime_row"
             \* C02(d): a trigger pass with watermark >= end + AL had completed before the row was emitted: window closed
             ELSE IF \E id \in SeqSet(r.ids) \ SeqSet(last.ids) : r.we + cfg.al <= em[id].pwmAt THEN "late_row_absorbed_after_allowance"
@@ -126,7 +131,7 @@ LateOwed == {id \in 1..Len(em) :
 QuiesceCode ==
   IF OnTime = {} \/ idled THEN ""       \* after an idle flush the watermark is the wall clock: which later rows are on time is not known to the trace
   ELSE IF Lost # {} THEN "ontime_row_lost"
-  ELSE IF LateOwed # {} THEN "late_row_in_allowance_not_redelivered"
+  ELSE IF LateOwed # {} /\ "ScopeOnTimeOnly" \notin Dev THEN "late_row_in_allowance_not_redelivered"
   ELSE IF \E i \in 1..Len(dl) : dl[i].ws < S0 /\ cfg.kind = "sliding" /\ \A id \in SeqSet(dl[i].ids) : ~em[id].late THEN "interval_before_first_reportable"
   ELSE ""
 
